@@ -486,7 +486,13 @@ impl<R: ReadRepository> cob::Evaluate<R> for Thread {
     ) -> Result<(), Self::Error> {
         let op = Op::try_from(entry)?;
 
-        self.op(op, concurrent.map(|(_, e)| e), repo)
+        // Apply the operation to a copy, so that an operation that is rejected
+        // half-way through leaves no trace in the state.
+        let mut next = self.clone();
+        next.op(op, concurrent.map(|(_, e)| e), repo)?;
+        *self = next;
+
+        Ok(())
     }
 }
 
